@@ -5,6 +5,6 @@ CONSTANTS
   KIND = "block"
   STEP = 1
 INIT Init
-NEXT Next
-INVARIANTS BlockInv UnblockInv ComplexInv
+NEXT NextBlock
+INVARIANTS BlockInv UnblockInv
 CHECK_DEADLOCK FALSE
